@@ -1335,7 +1335,9 @@ class Interp:
         self.used_loop_contracts.add(key)
         src_hdr = self.loop_header_text(st, frame)
         if header is not None and " ".join(header.split()) != " ".join(src_hdr.split()):
-            raise ContractMismatch("loop contract for %s#%d expects header %r, source has %r" % (key[0], key[1], header, src_hdr))
+            # the loop was edited: the contract is still tried, but a failing obligation is only believed when the
+            # counterexample replays natively on the real code (otherwise: undecided, CONTRACT-MISMATCH)
+            self.ctx.header_mismatch = "loop contract for %s#%d expects header %r, source has %r" % (key[0], key[1], header, src_hdr)
         L = LocalsProxy(frame)
         name = "%s#loop%d" % (key[0].split(":")[1], key[1])
         is_for = it is not None
